@@ -182,10 +182,10 @@ UNIT = {
                     ' proof { lemma_arr_ends(vals, 0, arr_at(r, e0, pa, %s)); }' % D1},
         {'rule': 'R1', 'find': 'if lexer.peek()?.equals(blit("]")) { break; }',
          'replace': 'proof { lemma_arr_unfold(r, e0, lexer.pos as int, %s); } if lexer.peek()?.equals(blit("]")) { proof { let tk = tok(lexer.buf@, lexer.pos as int); if tk is Some { lemma_arr_ends(vals, tk.unwrap().1, None); } } break; }' % D1},
-        {'rule': 'R1', 'regex': r'let element = t!\(parse_with_lexer_ctx\(lexer, r, ctx, ([\w:| ]+), max_depth-1\)\);',
+        {'rule': 'R1', 'regex': r'let element = t!\(parse_with_lexer_ctx\(lexer, r, ([^,()]+), ([^,()]+), ([^,()]+)\)\);',
          'replace': 'let ghost pk = lexer.pos as int; let ghost xk = obj_at(r, e0, pk, %s);'
                     ' proof { if xk is Some { lemma_any_allows(xk.unwrap().0); } }'
-                    r' let element = t!(parse_with_lexer_ctx(lexer, r, ctx, \1, max_depth-1));'
+                    r' let element = t!(parse_with_lexer_ctx(lexer, r, \1, \2, \3));'
                     ' proof { if xk is Some { let v = xk.unwrap().0; lemma_arr_step(vals, v, arr_at(r, e0, lexer.pos as int, %s)); lemma_rep_seq_push(array@, vals, element, v); vals = vals.push(v); } }' % (D1, D1)},
         # strings: `for x in it { body }` spelled as its definition `loop { match it.next() { None => break, Some(x) => body } }` (R6)
         {'rule': 'R1', 'count': 2, 'find': 'let mut string = IBytes::new();',
@@ -216,15 +216,15 @@ UNIT = {
         {'rule': 'R1', 'find': 'let token = t!(lexer.next());', 'replace': 'proof { lemma_dict_unfold(r, e0, lexer.pos as int, max_depth as nat, m); } let token = t!(lexer.next());'},
         {'rule': 'R1', 'find': 'if token.starts_with(blit("/")) {', 'replace': 'proof { lemma_starts_slash(token.slice@); } if token.starts_with(blit("/")) {'},
         # the key is read through the name arm (since f033b21): the object at a `/` token is the name, whatever the context
-        {'rule': 'R1', 'regex': r'let key = t!\(parse_with_lexer_ctx\(lexer, r, None, ([\w:| ]+), max_depth\)\)\.into_name\(\)\?;',
+        {'rule': 'R1', 'regex': r'let key = t!\(parse_with_lexer_ctx\(lexer, r, ([^,()]+), ([^,()]+), ([^,()]+)\)\)\.into_name\(\)\?;',
          'replace': 'let ghost ek = env_of(lexer, None::<&Context>); let ghost xn = obj_at(r, ek, lexer.pos as int, max_depth as nat);'
                     ' proof { lemma_obj_name(r, ek, lexer.pos as int, max_depth as nat); lemma_obj_name(r, e0, lexer.pos as int, max_depth as nat);'
                     ' if xn is Some && xn.unwrap().0 is Name { lemma_name_allowed(xn.unwrap().0->Name_0); } }'
-                    r' let key = t!(parse_with_lexer_ctx(lexer, r, None, \1, max_depth)).into_name()?;'},
-        {'rule': 'R1', 'regex': r'let obj = t!\(parse_with_lexer_ctx\(lexer, r, ctx, ([\w:| ]+), max_depth\)\);',
+                    r' let key = t!(parse_with_lexer_ctx(lexer, r, \1, \2, \3)).into_name()?;'},
+        {'rule': 'R1', 'regex': r'let obj = t!\(parse_with_lexer_ctx\(lexer, r, ([^,()]+), ([^,()]+), ([^,()]+)\)\);',
          'replace': 'let ghost xk = obj_at(r, e0, lexer.pos as int, max_depth as nat);'
                     ' proof { if xk is Some { lemma_any_allows(xk.unwrap().0); } }'
-                    r' let obj = t!(parse_with_lexer_ctx(lexer, r, ctx, \1, max_depth));'},
+                    r' let obj = t!(parse_with_lexer_ctx(lexer, r, \1, \2, \3));'},
         {'rule': 'R1', 'find': 'dict.insert(key, obj);',
          'replace': 'proof { if xk is Some { lemma_rep_map_insert(dict@, m, key@, obj, xk.unwrap().0); m = m.insert(key@, xk.unwrap().0); } } dict.insert(key, obj);'}]},
 
@@ -240,10 +240,12 @@ UNIT = {
                  ('endstream_required', 'res matches Ok(s) ==> (s.inner matches StreamInner::InFile { id: i, file_range: fr } && fr.start <= fr.end'
                                         ' && (tok(old(lexer).buf@, fr.end - old(lexer).file_offset) matches Some(t) && old(lexer).buf@.subrange(t.0, t.1) == K_ENDSTREAM() && final(lexer).pos == t.1))')],
      'rewrites': [{'rule': 'R1', 'regex': r'\A\{', 'replace': '{\n    broadcast use {b_tok, b_ws_end};\n    proof { lemma_lits(); reveal(stream_at); }'},
-        {'rule': 'R5', 'find': 'Some(&Primitive::Integer(n)) if n >= 0 => n as usize,',
-         'replace': 'Some(Primitive::Integer(n_)) if *n_ >= 0 => { let n = *n_; n as usize },'},
-        {'rule': 'R5', 'find': 'Some(&Primitive::Reference(reference)) => t!(t!(r.resolve_flags(reference, ParseFlags::INTEGER, 1)).as_usize()),',
-         'replace': 'Some(Primitive::Reference(reference_)) => { let reference = *reference_; t!(t!(r.resolve_flags(reference, ParseFlags::INTEGER, 1)).as_usize()) },'},
+        # R5 ref patterns (`Some(&Primitive::X(v))`, unsupported): the match runs on a clone of the looked-up value and the `&` is dropped from
+        # the patterns; guards and arm bodies stay verbatim
+        {'rule': 'R5', 'regex': r'match (dict\.get\("[A-Za-z]+"\)) \{', 'replace': r'match opt_cloned(\1) {'},
+        {'rule': 'R5', 'count': '*', 'regex': r'Some\(&Primitive::', 'replace': 'Some(Primitive::'},
+        # R4: `PAT => err!(..)` uses the twin `err_arm!` (same control flow; works around a Verus false alarm, see unit.rs)
+        {'rule': 'R4', 'count': '*', 'regex': r'=> err!\(', 'replace': '=> err_arm!('},
         {'rule': 'R3', 'find': 'field: "Length".into()', 'replace': ''}]},
 
   'parse_with_lexer': {'kind': 'fn', 'file': P, 'container': None, 'name': 'parse_with_lexer', 'ret': 'res',
@@ -282,6 +284,6 @@ UNIT = {
                                            ' && !r.options_spec().allow_missing_endobj ==> res is Err }'),
                  ('endobj_missing_tolerant', 'match ' + IND + ' { None => true, Some(x) => !is_endobj(old(lexer).buf@, x.3)'
                                              ' && r.options_spec().allow_missing_endobj && allowed(flags, x.1) ==> (res matches Ok(o) && o.0 == x.0 && rep(o.1, x.1) && final(lexer).pos == x.2) }')],
-     'rewrites': [LITS]},
+     'rewrites': [LITS, BLIT]},
  },
 }
